@@ -89,12 +89,19 @@ class DerivationTree:
             self.__is_open = True
 
     def to_json(self) -> str:
-        the_dict = self.__dict__
-        if "_DerivationTree__k_paths" in the_dict:
-            del the_dict["_DerivationTree__k_paths"]
-        if "_DerivationTree__concrete_k_paths" in the_dict:
-            del the_dict["_DerivationTree__concrete_k_paths"]
-        return json.dumps(the_dict, default=lambda o: o.__dict__)
+        def to_dict(tree: "DerivationTree") -> dict:
+            # The k-path caches are not serialized; they must stay in the live object.
+            return {
+                key: value
+                for key, value in tree.__dict__.items()
+                if key
+                not in (
+                    "_DerivationTree__k_paths",
+                    "_DerivationTree__concrete_k_paths",
+                )
+            }
+
+        return json.dumps(to_dict(self), default=to_dict)
 
     def __getstate__(self) -> bytes:
         return zlib.compress(self.to_json().encode("UTF-8"))
